@@ -94,7 +94,7 @@ def shard(ctx):
         n_ex += 1
         ctx.case(sha(src), True, classes=['exhaustive'], sample={'family': 'exhaustive', 'source': src})
         if r is not None:
-            ctx.fail(c, r[0], r[1])
+            ctx.fail_direct(c, r[0], r[1])
     ctx.extra['exhaustive_cases'] = n_ex
 
     # (2) random deep modules
@@ -130,7 +130,7 @@ def shard(ctx):
         r = oracle(c)
         ctx.case(sha(data), True, classes=['corpus'], sample={'family': 'corpus', 'file': entry['path']})
         if r is not None:
-            ctx.fail(c, r[0], r[1])
+            ctx.fail_direct(c, r[0], r[1])
 
     # (4) other interpreters: generated modules at their feature level; python 2 templates on 2.7
     fleet.run_fleet_share(ctx, 'roundtrip', ctx.n(2400, 80000))
